@@ -227,6 +227,64 @@ func checkC17(w *World, r *Recorder) propInfo {
 		}
 		r.Check(gi.InitOnly, "C17-X4", "global "+gi.G.Name(), w.Pos(gi.G.Pos()), "written only by its package initialiser", "shared package-level "+ts+" is written outside its initialiser or its address escapes")
 	}
+	// X6: every other package-level variable the read side reads is immutable
+	// once initialisation is over: whatever writes it — wherever that code is
+	// reachable from — is initialisation code (a package initialiser, a function
+	// only initialisers run, the body of a recognised lazy initialisation whose
+	// once.Do dominates every read). The register is the stated exception (its
+	// run-time writer is registration, outside the read side: X1 above).
+	{
+		regG := registerGlobal(w)
+		readBy := map[*ssa.Global]*ssa.Function{}
+		for _, fn := range sortedFuncs(reach) {
+			if !w.InRepo(fn) || fn.Blocks == nil {
+				continue
+			}
+			for _, b := range fn.Blocks {
+				for _, in := range b.Instrs {
+					for _, op := range in.Operands(nil) {
+						if g, ok := (*op).(*ssa.Global); ok && g.Pkg != nil && w.InRepoPath(g.Pkg.Pkg.Path()) && readBy[g] == nil {
+							readBy[g] = fn
+						}
+					}
+				}
+			}
+		}
+		var gs []*ssa.Global
+		for g := range readBy {
+			gs = append(gs, g)
+		}
+		sort.Slice(gs, func(i, j int) bool { return globalName(gs[i]) < globalName(gs[j]) })
+		for _, g := range gs {
+			ts := g.Type().(*types.Pointer).Elem().String()
+			if g == regG || ts == "sync.Mutex" || ts == "sync.RWMutex" || ts == "sync.Once" {
+				continue
+			}
+			var writers []string
+			for fn := range w.AllFuncs {
+				if !w.InRepo(fn) || fn.Blocks == nil || fn.Synthetic == "package initializer" || w.initTimeOnly(fn) {
+					continue
+				}
+				wr := false
+				for _, b := range fn.Blocks {
+					for _, in := range b.Instrs {
+						for _, op := range in.Operands(nil) {
+							if *op == ssa.Value(g) && !globalUseReadOnly(in, g) {
+								wr = true
+							}
+						}
+					}
+				}
+				if wr {
+					writers = append(writers, fnKey(fn))
+				}
+			}
+			sort.Strings(writers)
+			r.Check(len(writers) == 0, "C17-X6", "global "+g.Name(), w.Pos(g.Pos()),
+				"read on the read side; written only by initialisation code",
+				fmt.Sprintf("package-level %s is read on the read side (%s) and written, or has its address handed on, by %v, which is not initialisation code: a call of it concurrent with a reader is a data race", g.Name(), fnKey(readBy[g]), writers))
+		}
+	}
 	// the register's writers are not reachable from the read side
 	if reg := registerGlobal(w); reg != nil {
 		for _, fn := range w.Funcs {
